@@ -508,6 +508,7 @@ Fixpoint name_loop (fuel : nat) (origin : option (list N)) (s : sbuf) (w : nat)
         | (Some _, _) => Err 3
         | (None, s) => do s <- next_item s; Ok ([0], s)
         end
+      else if name_rejects_empty_label && Nat.eqb w (S st) then Err 3
       else if (if name_max_ge then Nat.leb name_max w else Nat.ltb name_max w) then Err 3
       else name_loop f origin s w
     | (LEnd, s, w) =>
